@@ -30,3 +30,23 @@ func init() {
 			"case *dag.FileScan:\n\t\t\top.Filter = filter\n", "case *dag.FileScan:\n\t\t\tif op.Format == \"parquet\" {\n\t\t\t\top.Filter = filter\n\t\t\t}\n", "C07-D8", "shortened chain"},
 	)
 }
+
+func init() {
+	addMutants(
+		Mutant{"C07", "c07-merge-ignores-reverse", "compiler/optimizer/parallelize.go", "Optimizer.liftIntoParPaths",
+			"Order: which,", "Order: op.Args[0].Order,", "C07-D9", "dag.Merge.Order"},
+		Mutant{"C08", "c08-merge-ignores-reverse", "compiler/optimizer/parallelize.go", "Optimizer.liftIntoParPaths",
+			"Order: which,", "Order: op.Args[0].Order,", "C08-D9", "dag.Merge.Order"},
+		Mutant{"C07", "c07-lift-sort-ignores-nulls", "compiler/optimizer/parallelize.go", "Optimizer.liftIntoParPaths",
+			"if !sortNullsMax(op) {", "if false {", "C07-N2", "builds a dag.Merge from a dag.Sort"},
+		Mutant{"C08", "c08-lift-sort-ignores-nulls", "compiler/optimizer/parallelize.go", "Optimizer.liftIntoParPaths",
+			"if !sortNullsMax(op) {", "if false {", "C08-N2", "builds a dag.Merge from a dag.Sort"},
+		Mutant{"C16", "c16-swap-before-last-flush", "lake/data/writer.go", "Writer.Close",
+			"if err := w.flushSeekIndex(); err != nil {\n\t\tw.Abort()\n\t\treturn err\n\t}\n\tif err := w.seekIndex.Close(); err != nil {\n\t\tw.Abort()\n\t\treturn err\n\t}\n\tw.object.Count = w.count\n\tw.object.Size = w.writer.Position()\n\tif w.sortKey.Order == order.Desc {\n\t\tw.object.Min, w.object.Max = w.object.Max, w.object.Min\n\t}\n",
+			"w.object.Count = w.count\n\tw.object.Size = w.writer.Position()\n\tif w.sortKey.Order == order.Desc {\n\t\tw.object.Min, w.object.Max = w.object.Max, w.object.Min\n\t}\n\tif err := w.flushSeekIndex(); err != nil {\n\t\tw.Abort()\n\t\treturn err\n\t}\n\tif err := w.seekIndex.Close(); err != nil {\n\t\tw.Abort()\n\t\treturn err\n\t}\n", "C16-B2", "Close assigns object"},
+		Mutant{"C19", "c19-late-error-one-route", "service/handlers.go", "handleQuery",
+			"writer.WriteError(err)\n\t\tstatus.setError(err)", "if ctrl {\n\t\t\twriter.WriteError(err)\n\t\t\treturn\n\t\t}\n\t\tstatus.setError(err)", "C19-E4", "late-error callback"},
+		Mutant{"C19", "c19-handler-first-key-only", "service/handlers.go", "handlePoolPost",
+			"for _, key := range req.SortKeys.Keys {\n\t\tsortKeys = append(sortKeys, order.NewSortKey(req.SortKeys.Order, key))\n\t}", "if len(req.SortKeys.Keys) > 0 {\n\t\tsortKeys = append(sortKeys, order.NewSortKey(req.SortKeys.Order, req.SortKeys.Keys[0]))\n\t}", "C19-K3", "PoolPostRequest.SortKeys.Keys"},
+	)
+}
